@@ -147,7 +147,17 @@ def gen_data(rng, n, p, kind=None, boundary=None):
             X[int(rng.integers(1, n)):] += 2.5
     else:
         raise KeyError(kind)
-    return np.ascontiguousarray(X, dtype=np.float64), meta
+    X = np.ascontiguousarray(X, dtype=np.float64)
+    # Unequal column scales (a quarter of the multi-column cases).  Decided from the data themselves, not from
+    # `rng`, so that the random stream of every workload -- and the other three quarters of the cases -- stay
+    # as they were: column j is multiplied by its own factor (integer factors for the exact kinds).
+    if p >= 2 and n >= 1 and kind not in ("scaled_big", "heavy", "offset", "flat", "steps"):
+        r2 = np.random.default_rng(int.from_bytes(X[:1].tobytes()[:8].ljust(8, b"\0"), "little") ^ (n * 1000003 + p))
+        if r2.random() < 0.25:
+            f = r2.choice([1.0, 2.0, 3.0], size=p) if kind in EXACT_KINDS else r2.choice([0.1, 0.5, 1.0, 2.0, 7.0], size=p)
+            X = np.ascontiguousarray(X * f)
+            meta["col_scales"] = f.tolist()
+    return X, meta
 
 
 def integer_data(rng, n, p, signal=True):
